@@ -440,6 +440,8 @@ def run(ctx):
     # ================= correspondence: xcorr =================
     cases = []; meta = []
 
+    xc_nonfinite = []
+
     def add_xcorr(x, y, ykind, maxlags, norm, xform='array'):
         """ykind: 'none', 'sameobj' (xcorr(x, x)), 'same' (equal data, other object), 'cross'"""
         xin = as_input(x, xform)
@@ -447,6 +449,10 @@ def run(ctx):
         code, res = outcome(xcorr, xin, yin, maxlags=maxlags, norm=norm)
         out, lags = ([], []) if res is None else (np.asarray(res[0]), np.asarray(res[1]))
         oy = None if ykind == 'none' else (y if ykind == 'cross' else x)
+        if res is not None and not (np.all(np.isfinite(np.asarray(out, dtype=complex))) and np.all(np.isfinite(np.asarray(lags, dtype=float)))):
+            # a non-finite value cannot enter the exact comparison: evaluated by the search oracle instead (definition clause, with a replay)
+            xc_nonfinite.append((x, None if ykind in ('none', 'sameobj') else oy, maxlags, norm, ykind == 'sameobj'))
+            return
         if ykind == 'cross':
             rp = rms(x) * rms(y) if norm == 'coeff' else 1.0
             cases.append('xcorr_case %s %s %s %s %s %d%%nat %d%%nat %s %s' % (tolq(TOL), cz(rp), czl(x), opt_list(oy), opt_nat(maxlags), NORM_ID[norm], code, czl(out), zl(lags)))
@@ -518,6 +524,8 @@ def run(ctx):
 
     for x, m in cm_raised[:20]:
         report(check_acorr_consistency(x, m), rep_of('acorr_consistency', x, m=m))
+    for x, y2, ml, norm, so in xc_nonfinite[:20]:
+        report(check_xcorr(x, y2, ml, norm, sameobj=so), rep_of('xcorr', x, y2, 'array', 'array', maxlags=ml, norm=norm, sameobj=so))
     nmax = ctx.q(40, 128)
     for it in range(ctx.q(260, 8000)):
         style = str(rng.choice(['noise', 'tone', 'int', 'big']))
